@@ -176,6 +176,14 @@ def cargo_build(crate, bins=None, extra=None):
         return rc == 0, out + err
 
 
+def _limit_memory():
+    """harness processes run the code under test: cap their address space so that a runaway allocation aborts that process
+    (reported as `abort` for the request) instead of exhausting the machine"""
+    import resource
+    cap = int(os.environ.get("FX_HARNESS_MEM_GB", "8")) << 30
+    resource.setrlimit(resource.RLIMIT_AS, (cap, cap))
+
+
 def run_lines(cmd, lines, cwd=None, timeout=3600, restart_on_death=True):
     """Feed request lines to a line-protocol process; one reply per request.
     If the process dies (abort, stack overflow) the request it died on is
@@ -186,7 +194,7 @@ def run_lines(cmd, lines, cwd=None, timeout=3600, restart_on_death=True):
     while i < len(lines):
         chunk = lines[i:]
         p = subprocess.run(cmd, input="\n".join(chunk) + "\n", capture_output=True, text=True, cwd=cwd,
-                           timeout=timeout, env=ENV)
+                           timeout=timeout, env=ENV, preexec_fn=(None if cmd[0] == DRV else _limit_memory))
         got = p.stdout.split("\n")
         if got and got[-1] == "":
             got.pop()
@@ -195,7 +203,7 @@ def run_lines(cmd, lines, cwd=None, timeout=3600, restart_on_death=True):
             break
         # died while answering request i+len(got)
         replies.extend(got)
-        replies.append("abort rc=%d" % p.returncode)
+        replies.append("abort timeout (no answer within the harness' per-request limit)" if p.returncode == 124 else "abort rc=%d" % p.returncode)
         deaths += 1
         i += len(got) + 1
         if not restart_on_death or deaths > 200:
